@@ -8,6 +8,9 @@
 //! clocks at the engine start), updated by its own `update_from_position` / `update_from_balance`, with
 //! `generate(&mut self)` calls interleaved (`gen`) or run on a clone (`peek`).
 //!
+//! Configuration-shape family: `initb n m mode rf [a total free]..` builds the engine state with INITIAL
+//! balances (`EngineStateBuilder::balances`, applied at `time_engine_start`) instead of an empty one.
+//!
 //! Ops and observations: see `lean/BarterModel/Driver/C16K.lean`. Times in ops and observations are
 //! milliseconds relative to the engine start. Instrument tear sheets are looked up in
 //! `TradingSummary.instruments` by the instrument's *name*, asset tear sheets in `TradingSummary.assets`
@@ -38,6 +41,10 @@ use barter_instrument::{
     exchange::ExchangeIndex,
     instrument::{InstrumentIndex, name::InstrumentNameInternal},
 };
+use barter::engine::state::{
+    EngineState, global::DefaultGlobalData, instrument::data::DefaultInstrumentMarketData,
+};
+use barter_instrument::{Keyed, asset::{ExchangeAsset, name::AssetNameInternal}};
 use barter_integration::snapshot::Snapshot;
 use chrono::{DateTime, TimeDelta, Utc};
 use rust_decimal::Decimal;
@@ -361,6 +368,56 @@ fn run() {
                             // the real constructor, with both summary clocks at the engine start (the
                             // engine's own `trading_summary_generator` reads them from the wall-clock
                             // driven `HistoricalClock`)
+                            let generator = TradingSummaryGenerator::init(
+                                rf,
+                                t0(),
+                                t0(),
+                                &engine.state.instruments,
+                                &engine.state.assets,
+                            );
+                            Sut::Direct(Box::new(engine), generator)
+                        }
+                        "engine" => Sut::Engine(Box::new(engine), rf),
+                        other => panic!("bad mode {other}"),
+                    });
+                }
+                "initb" => {
+                    n = op[1].parse().unwrap();
+                    let m: usize = op[2].parse().unwrap();
+                    let rf = parse_dec(&op[4]);
+                    assert!((op.len() - 5) % 3 == 0, "bad op initb");
+                    let bases: Vec<String> = (0..n).map(|i| format!("b{i}")).collect();
+                    let defs: Vec<(usize, &str, &str)> =
+                        (0..n).map(|i| (i % 2, bases[i].as_str(), "usdt")).collect();
+                    let instruments = build_instruments(&defs);
+                    assert_eq!(instruments.assets().len(), m, "asset count of the configuration");
+                    // initial balances through `EngineStateBuilder::balances`, keyed by ExchangeAsset (an unknown
+                    // asset index has no key: the builder is given a key the state does not contain and panics)
+                    let balances: Vec<Keyed<ExchangeAsset<AssetNameInternal>, Balance>> = op[5..]
+                        .chunks(3)
+                        .map(|c| {
+                            let a: usize = c[0].parse().unwrap();
+                            let key = match instruments.assets().get(a) {
+                                Some(k) => ExchangeAsset::new(k.value.exchange, k.value.asset.name_internal.clone()),
+                                None => ExchangeAsset::new(EXCHANGES[4], AssetNameInternal::new(format!("unknown{a}"))),
+                            };
+                            Keyed::new(key, Balance::new(parse_dec(&c[1]), parse_dec(&c[2])))
+                        })
+                        .collect();
+                    let built = build_engine(&instruments, &[], TradingState::Disabled);
+                    let mut engine = built.engine;
+                    let state: State = EngineState::builder(
+                        &instruments,
+                        DefaultGlobalData::default(),
+                        DefaultInstrumentMarketData::default,
+                    )
+                    .time_engine_start(t0())
+                    .trading_state(TradingState::Disabled)
+                    .balances(balances)
+                    .build();
+                    engine.state = state;
+                    sut = Some(match op[3].as_str() {
+                        "direct" => {
                             let generator = TradingSummaryGenerator::init(
                                 rf,
                                 t0(),
@@ -768,6 +825,12 @@ fn random_case(rng: &mut Rng, out: &mut Out, tier: &str) {
         "init {n} {m} {} {rf}",
         if engine { "engine" } else { "direct" }
     ));
+    case_body(rng, out, tier, n, m, engine, &[]);
+}
+
+/// the events of a random case after its `init` / `initb` line; `initial[a] = Some(total)`: asset `a` starts
+/// with a configured balance, its walk continues from that level
+fn case_body(rng: &mut Rng, out: &mut Out, tier: &str, n: usize, m: usize, engine: bool, initial: &[Option<i64>]) {
     let len = match rng.below(10) {
         0 => rng.range(0, 3),
         _ => rng.range(3, if tier == "thorough" { 45 } else { 30 }),
@@ -796,6 +859,11 @@ fn random_case(rng: &mut Rng, out: &mut Out, tier: &str) {
             floor: None,
         }
     };
+    for (a, l) in initial.iter().enumerate() {
+        if let Some(l) = l {
+            balances.level[a] = *l;
+        }
+    }
     let mut seen = vec![false; n];
     for _ in 0..len {
         if rng.chance(gen_pct) {
@@ -885,6 +953,7 @@ fn generate(seed: u64, n_cases: usize, tier: &str) {
         random_case(&mut rng, &mut out, tier);
     }
     domain_family(&mut out, seed, n_cases, tier);
+    config_family(&mut out, seed, n_cases, tier);
     out.flush();
 }
 
@@ -1094,6 +1163,65 @@ fn domain_family(out: &mut Out, seed: u64, n_cases: usize, tier: &str) {
                 }
             }
         }
+    }
+}
+
+// ---------------------------------------------------------- configuration-shape family (`cfg..` cases)
+//
+// Separately seeded, appended after the `d..` cases (which, like the random cases, stay exactly as they were):
+// a STARTING STATE that is not empty. `initb` configures initial balances through
+// `EngineStateBuilder::balances` for a subset of the assets (the builder applies each as a snapshot at
+// `time_engine_start` through `AssetState::update_from_balance`): the first point of that asset's balance
+// curve, a peak or not, stale for nothing, and what every later snapshot older than the engine start is
+// stale against on the engine path. 10 % name an asset twice (a HashMap: the last one is kept, ONE point).
+// Events as in the random cases; a quarter of the cases start with an immediate request.
+fn config_family(out: &mut Out, seed: u64, n_cases: usize, tier: &str) {
+    let mut rng = Rng::new(seed ^ 0xCF_16_0B_16);
+    let count = (n_cases / 8).max(8);
+    for j in 0..count {
+        out.case(format!("cfg{}", j + 1));
+        let n = rng.range(1, 3) as usize;
+        let m = n_assets(n);
+        let engine = j % 2 == 0;
+        let rf = *rng.pick(&["0", "0.0015", "-0.0005", "0.02"]);
+        let mut line = format!("initb {n} {m} {} {rf}", if engine { "engine" } else { "direct" });
+        let mut picked: Vec<usize> = (0..m).filter(|_| rng.chance(60)).collect();
+        if picked.is_empty() {
+            picked.push(rng.below(m as u64) as usize);
+        }
+        if j % 4 >= 2 {
+            picked.reverse();
+        }
+        if rng.chance(10) {
+            picked.push(picked[0]);
+        }
+        let unknown = rng.chance(3);
+        if unknown {
+            picked.push(m);
+        }
+        let mut initial: Vec<Option<i64>> = vec![None; m];
+        for a in picked {
+            // mostly a positive level of the walk (the oracle speaks about the drawdowns), sometimes zero / negative
+            let total = *rng.pick(&[50i64, 100, 100, 200, 200, 300, 0, -10]);
+            let free = rng.range(0, total.max(1));
+            if a < m {
+                initial[a] = Some(total);
+            }
+            line.push_str(&format!(" {a} {} {}", dec_str(total, 0), dec_str(free * 10, 1)));
+        }
+        out.line(line);
+        if unknown {
+            continue;
+        }
+        if rng.chance(25) {
+            out.line(format!("gen {}", iv_tok(&mut rng, false)));
+        }
+        if rng.chance(30) {
+            // a snapshot from before the engine start for an asset with an initial balance
+            let a = rng.below(m as u64);
+            out.line(format!("bal {a} {} 500 1", -rng.range(1, 5) * 1000));
+        }
+        case_body(&mut rng, out, tier, n, m, engine, &initial);
     }
 }
 
